@@ -2,6 +2,8 @@ package main
 
 import (
 	"fmt"
+	"go/constant"
+	"golang.org/x/tools/go/ssa"
 	"regexp"
 	"sort"
 	"strings"
@@ -123,6 +125,40 @@ func runC09(c *Ctx) {
 
 	// T0
 	checkT0(c)
+	checkT5c(c)
+
+	// T7: every binary operator that token post-processing inserts between a
+	// token and the traversal that follows it binds tighter than every infix
+	// operator an expression can spell; otherwise `a OP (x).[i]` groups as
+	// `(a OP (x)) . [i]`.
+	r.Rule("T7", "implicit binary operators inserted by token post-processing outrank every written infix operator", 2)
+	emittedInfix := map[*OpType]bool{}
+	for _, o := range infix {
+		emittedInfix[o] = true
+	}
+	n7 := 0
+	for _, s := range implicitOpSites(c, "handleToken") {
+		if s.op.NumArgs != 2 {
+			continue
+		}
+		n7++
+		key := fmt.Sprintf("handleToken/inserts(%s)#%d", s.op.Type, n7)
+		var worse []string
+		for _, i := range infix {
+			if i != s.op && i.Precedence >= s.op.Precedence {
+				worse = append(worse, i.Type)
+			}
+		}
+		if len(worse) == 0 {
+			r.Discharge("T7", key, c.P.pos(s.pos), fmt.Sprintf("precedence %d above every written infix operator (max %d)", s.op.Precedence, maxInfix))
+		} else {
+			sort.Strings(worse)
+			if len(worse) > 6 {
+				worse = append(worse[:6], "…")
+			}
+			r.Finding("T7", key, c.P.pos(s.pos), fmt.Sprintf("handleToken inserts %s (precedence %d) as the implicit operator before a following traversal; written infix operators %s bind at least as tightly, so `a OP (x).[i]` no longer means `a OP ((x).[i])`", s.op.Type, s.op.Precedence, strings.Join(worse, ",")))
+		}
+	}
 
 	// T1, T2, T3
 	for _, e := range list {
@@ -407,4 +443,52 @@ func keywordSamples(pat string) []string {
 		out = append(out, vars...)
 	}
 	return out
+}
+
+// checkT5c: the expression text is handed to the lexer with its line feeds.
+// A `#` comment ends at a line feed only (T5), so a constant rewrite of the
+// expression read from a file (CRLF normalisation) that drops the line feed
+// lets a comment on one line swallow the lines after it.
+func checkT5c(c *Ctx) {
+	r := c.R
+	var fn *ssa.Function
+	for _, f := range c.moduleFuncs() {
+		if funcKey(f) == "cmd.processArgs" {
+			fn = f
+		}
+	}
+	if fn == nil {
+		r.Fatal("anchor missing: cmd.processArgs")
+		return
+	}
+	n := 0
+	eachInstr(fn, func(ins ssa.Instruction) {
+		call, ok := ins.(*ssa.Call)
+		if !ok {
+			return
+		}
+		name := calleeName(&call.Call)
+		if name != "strings.ReplaceAll" && name != "strings.Replace" {
+			return
+		}
+		oldC, ok1 := call.Call.Args[1].(*ssa.Const)
+		newC, ok2 := call.Call.Args[2].(*ssa.Const)
+		if !ok1 || !ok2 || oldC.Value == nil || newC.Value == nil {
+			return
+		}
+		oldS, newS := constant.StringVal(oldC.Value), constant.StringVal(newC.Value)
+		if !strings.Contains(oldS, "\n") {
+			return
+		}
+		n++
+		key := fmt.Sprintf("processArgs/replace(%q)", oldS)
+		if strings.Count(newS, "\n") >= strings.Count(oldS, "\n") {
+			r.Discharge("T5", key, c.P.pos(call.Pos()), fmt.Sprintf("%q becomes %q: line feeds are kept", oldS, newS))
+		} else {
+			r.Finding("T5", key, c.P.pos(call.Pos()), fmt.Sprintf("an expression read from a file has %q rewritten to %q: the line feed that ends a `#` comment is gone, so a comment swallows the rest of the expression (layout is no longer insignificant)", oldS, newS))
+		}
+	})
+	if n == 0 {
+		r.Note("T5: processArgs applies no constant rewrite involving line feeds to the expression text")
+	}
 }
